@@ -113,9 +113,8 @@ def readBack (g : Option Row) (s : Row) (cs : List DNode) : Val :=
 
 /-! ## triggers of the open findings -/
 
-def insertRows : List (String × String) := [
-  ("set_origin", "F-C15-1"), ("set_forwarded", "F-C15-2"), ("set_author", "F-C15-3"),
-  ("set_last_update", "F-C15-4"), ("set_applied_upstream", "F-C15-5"), ("set_upstream_bug", "F-C15-6")]
+/-- setters still written with `insert` (open findings) -/
+def insertRows : List (String × String) := [("set_upstream_bug", "F-C15-6")]
 
 def present (cs : List DNode) (names : List Str) : Bool := (firstOf cs names).isSome
 
@@ -124,14 +123,13 @@ def setTriggers (s : Row) (v : Val) (cs : List DNode) : List String :=
   let m := String.ofList s.method
   if s.view == "dep3.PatchHeader".toList then
     (insertRows.filterMap fun p => if p.1 == m && present cs s.names then some p.2 else none)
-    ++ (if m == "set_description" && present cs s.names then ["F-C15-7"] else [])
-    ++ (if m == "set_long_description" then ["F-C15-8"] else [])
+    -- on an absent field the long text is stored as the whole field (its first line becomes the synopsis)
+    ++ (if m == "set_long_description" && !present cs s.names then ["F-C15-8"] else [])
     ++ (if m == "set_vendor_bug" && present cs ["Bug-Debian".toList] then ["F-C15-14"] else [])
   else if s.view == "copyright.FilesParagraph".toList && m == "set_license" then
     match v with
     | .license (.text _) => ["F-C15-9"]
     | _ => []
-  else if s.view == "buildinfo.Buildinfo".toList && m == "set_environment" then ["F-C15-13"]
   else []
 
 def canPanicRow (r : Row) : Bool :=
@@ -189,22 +187,14 @@ def getOnly (view name : Str) (text : Str) (idx : Nat) (want : Option String := 
       match findRow view name with
       | none => "*"
       | some g =>
-        if g.isOpaque then
-          -- Source::vcs: never reads a Vcs-* field (finding 10)
-          let vcsField := (keys (.node .PARAGRAPH cs)).any fun k =>
-            "Vcs-".toList.isPrefixOf k && k != "Vcs-Browser".toList
-          withTriggers "*" (if name == "vcs".toList && vcsField then ["F-C15-10"] else [])
+        if g.isOpaque then "*"
         else
           let v := getSem g false cs
           match encVal v with
           | none => withTriggers "*" (if canPanicRow g then ["F-C15-11"] else [])
           | some t =>
-            -- a list split on single spaces (`split(' ')`) misreads folded / multiply spaced text
-            let spaceList := match g.shape with
-              | .list .space _ _ => true
-              | _ => false
-            withTriggers t ((if v == .panic then ["F-C15-11"] else [])
-              ++ (if spaceList && want.isSome && want != some t then ["F-C15-15"] else []))
+            let _ := want
+            withTriggers t (if v == .panic then ["F-C15-11"] else [])
 
 /-- steps `acc=value;…` -/
 def decSteps (f : String) : Option (List (Str × Val)) :=
@@ -232,16 +222,17 @@ def seqRun (view : Str) (cs : List DNode) :
       | some cs' =>
         seqRun view cs' rest ((last.filter fun e => e.1 != name) ++ [(name, g, s)]) (ts ++ t1)
 
-def seqTriggersOnly (view : Str) (steps : List (Str × Val)) : List String :=
+/-- over-approximation for sequences (and for sequences the model cannot follow): an `insert`
+    setter used at all; `all`: also the state-dependent triggers, whatever the state -/
+def seqTriggersOnly (view : Str) (steps : List (Str × Val)) (all : Bool := false) : List String :=
   steps.foldl (fun acc st =>
     match (rowsOf view st.1).2 with
     | some s =>
-      acc ++ (setTriggers s st.2 [])
-        ++ (if s.op == .insert && s.view == "dep3.PatchHeader".toList then
+      acc ++ (if s.op == .insert && s.view == "dep3.PatchHeader".toList then
               insertRows.filterMap fun p => if p.1 == String.ofList s.method then some p.2 else none
             else [])
-        ++ (if s.method == "set_description".toList then ["F-C15-7"] else [])
         ++ (if s.method == "set_vendor_bug".toList then ["F-C15-14"] else [])
+        ++ (if all then setTriggers s st.2 [] else [])
     | none => acc) []
 
 def dedupS (l : List String) : List String := l.foldl (fun acc x => if acc.contains x then acc else acc ++ [x]) []
@@ -254,7 +245,7 @@ def seq (view : Str) (text : Str) (idx : Nat) (steps : List (Str × Val)) : Stri
     | none => "bad-args"
     | some (pos, cs) =>
       match seqRun view cs steps [] [] with
-      | none => withTriggers "*" (dedupS (seqTriggersOnly view steps))
+      | none => withTriggers "*" (dedupS (seqTriggersOnly view steps true))
       | some (cs', last, ts) =>
         let gs := last.map fun e => encVal (readBack e.2.1 e.2.2 cs')
         if gs.any Option.isNone then withTriggers "*" (dedupS (ts ++ seqTriggersOnly view steps))
@@ -284,7 +275,7 @@ def shapeName : Shape → String
   | .firstLine => "firstLine" | .restLines => "restLines"
   | .license => "license" | .licenseBareText => "licenseBareText"
   | .licenseName => "licenseName" | .licenseText => "licenseText"
-  | .originField => "originField" | .rfc2822 => "rfc2822" | .dateYmd => "dateYmd" | .envMap => "envMap"
+  | .originField => "originField" | .rfc2822 => "rfc2822" | .dateYmd => "dateYmd" | .envMap => "envMap" | .vcsScan => "vcsScan"
   | .findPara => "findPara" | .filterPara => "filterPara" | .addPara => "addPara"
   | .composite => "composite" | .derived => "derived" | .opaque => "opaque"
 
@@ -292,7 +283,7 @@ def absentName : Absent → String
   | .none => "none" | .default => "default" | .panic => "panic" | .empty => "empty"
 
 def showRow (r : Row) : String :=
-  s!"{kindName r.kind} {opName r.op} {opName r.clearOp} [{encList r.names}] {shapeName r.shape} {encBool r.strict} {absentName r.absent} {encBool r.optional}"
+  s!"{kindName r.kind} {opName r.op} {opName r.clearOp} [{encList r.names}] {shapeName r.shape} {encBool r.strict} {absentName r.absent} {encBool r.optional} {encStr r.dflt}"
 
 def strictRoot (text : Str) : Option DNode :=
   match readStrict text with
@@ -319,14 +310,12 @@ def ctlAdd (text : Str) (kind : String) (name : Str) : Option String :=
     | some key =>
       let d' := addPara d key name
       let root' := d'.root
-      -- add_source hands back `self.source()`: the FIRST paragraph with a Source field
-      let ret : Option DNode :=
-        if kind == "source" then findPara root' key else d'.para (d'.handles.length - 1)
+      -- both hand back the paragraph just added
+      let ret : Option DNode := d'.para (d'.handles.length - 1)
       match ret with
       | none => none
       | some p =>
-        let ts := if kind == "source" && (findPara t key).isSome then ["F-C15-12"] else []
-        some (withTriggers s!"{encOpt (Deb.get p key)} {encStr p.text} {encStr root'.text}" ts)
+        some s!"{encOpt (Deb.get p key)} {encStr p.text} {encStr root'.text}"
 
 def cprFind (text : Str) : String :=
   match hostKids "copyright.".toList text with
